@@ -112,6 +112,14 @@ func checkValidity(
 	if err := verifyHeader(ctx, cdc, store, clientState, header); err != nil {
 		return err
 	}
+	// every accepted header becomes the head: one that is already older than the trusting period
+	// would leave the client Expired, and an Expired client refuses every further update
+	if header.Time+clientState.TrustingPeriod < uint64(ctx.BlockTime().Unix()) {
+		return sdkerrors.Wrapf(
+			clienttypes.ErrInvalidHeader,
+			"header time %d is older than the trusting period %d", header.Time, clientState.TrustingPeriod,
+		)
+	}
 
 	if clientState.ChainId != 4 {
 		// Ensure that the header's extra-data section is of a reasonable size
